@@ -259,6 +259,10 @@ type countEffect struct{ n atomic.Int64 }
 
 func (e *countEffect) Exec() error { e.n.Add(1); return nil }
 
+// cbHangTimeout: how long the driver waits for a request to reach the handler / the fallback / to return before it
+// calls it a hang (typical: microseconds). After the first hang of a run the remaining waits are cut short.
+var cbHangTimeout = 20 * time.Second
+
 type cbDriver struct {
 	cb        *cbreaker.CircuitBreaker
 	entered   chan int
@@ -333,11 +337,11 @@ func (d *cbDriver) arrive(id int) string {
 	case <-d.fellback:
 		select {
 		case <-d.done:
-		case <-time.After(60 * time.Second):
+		case <-time.After(cbHangTimeout):
 			return "hang"
 		}
 		return "fallback"
-	case <-time.After(60 * time.Second):
+	case <-time.After(cbHangTimeout):
 		return "hang"
 	}
 }
@@ -350,7 +354,7 @@ func (d *cbDriver) complete(id, status int) bool {
 	select {
 	case <-d.done:
 		return true
-	case <-time.After(60 * time.Second):
+	case <-time.After(cbHangTimeout):
 		return false
 	}
 }
@@ -593,7 +597,8 @@ func cbRun(r *rand.Rand, cfg cbConfig, nsteps int, choose cbStepChooser) (cbRunS
 			st.arrivals++
 			script = append(script, fmt.Sprintf("arrive#%d@+%v=%s", id, t.Sub(start), got))
 			if got == "hang" {
-				mism("hang", fmt.Sprintf("request #%d neither reached the handler nor got the fallback", id))
+				mism("hang", fmt.Sprintf("request #%d neither reached the handler nor got the fallback within %v (deadlock?)", id, cbHangTimeout))
+				cbHangTimeout = 500 * time.Millisecond
 				break
 			}
 			if got == "pass" {
@@ -652,7 +657,8 @@ func cbRun(r *rand.Rand, cfg cbConfig, nsteps int, choose cbStepChooser) (cbRunS
 				code = 200
 			}
 			if !d.complete(id, status) {
-				mism("hang", fmt.Sprintf("released request #%d did not return", id))
+				mism("hang", fmt.Sprintf("released request #%d did not return within %v (deadlock?)", id, cbHangTimeout))
+				cbHangTimeout = 500 * time.Millisecond
 				break
 			}
 			st.completions++
